@@ -63,30 +63,28 @@ Variables E D : bytes -> bytes -> bytes.
 Variable modexp : Z -> Z -> Z -> Z.
 Variable is_prime : N -> bool.
 Variable split : N -> option (N * N).
-Variable foreign_ok : bytes -> bool.
 
-Notation request := (request foreign_ok).
-Notation stage1 := (stage1 H modexp is_prime split foreign_ok).
-Notation stage2 := (stage2 H E D modexp foreign_ok).
-Notation stage3 := (stage3 H foreign_ok).
-Notation handshake := (handshake H E D modexp is_prime split foreign_ok).
-Notation connect_and_request := (connect_and_request H E D modexp is_prime split foreign_ok).
+Notation stage1 := (stage1 H modexp is_prime split).
+Notation stage2 := (stage2 H E D modexp).
+Notation stage3 := (stage3 H).
+Notation handshake := (handshake H E D modexp is_prime split).
+Notation connect_and_request := (connect_and_request H E D modexp is_prime split).
 
 Lemma request_plain hist f e : plain_only (fst (request hist f e)).
 Proof.
   unfold Client.request. apply wbind_plain; [repeat constructor; now exists f|]. intros _.
-  destruct (e (hist ++ [f])); [|apply plain_nil].
-  destruct (dec_reply b); [apply plain_nil| |apply plain_nil]. destruct (foreign_ok b); apply plain_nil.
+  destruct (e (hist ++ [f])) as [[b| |]|]; try apply plain_nil.
+  destruct (dec_reply b); apply plain_nil.
 Qed.
 
 Lemma request_go hist f e eff o h :
   request hist f e = (eff, Go (o, h)) ->
-  eff = [SendPlain f] /\ h = hist ++ [f] /\ exists r, e (hist ++ [f]) = Some r /\ dec_reply r = DObj o.
+  eff = [SendPlain f] /\ h = hist ++ [f] /\ exists r, e (hist ++ [f]) = Some (Reply r) /\ dec_reply r = DObj o.
 Proof.
-  unfold Client.request, wbind, emit. destruct (e (hist ++ [f])) as [r|]; [|discriminate].
+  unfold Client.request, wbind, emit. destruct (e (hist ++ [f])) as [[r| |]|]; try discriminate.
   destruct (dec_reply r) as [o'| |] eqn:Hd; cbn.
   - intros [= <- <- <-]. eauto.
-  - destruct (foreign_ok r); discriminate.
+  - discriminate.
   - discriminate.
 Qed.
 
@@ -115,7 +113,7 @@ Lemma stage3_spec e s eff r : stage3 e s = (eff, r) ->
   | Go f => exists kh n3 sv3 h3 r3,
       f = Success (s2_key s) kh (s2_salt s) /\
       eff = [SendPlain (s2_f3 s); Save (s2_key s) kh (s2_salt s)] /\
-      e (s2_hist s ++ [s2_f3 s]) = Some r3 /\ dec_reply r3 = DObj (RGenOk n3 sv3 h3) /\
+      e (s2_hist s ++ [s2_f3 s]) = Some (Reply r3) /\ dec_reply r3 = DObj (RGenOk n3 sv3 h3) /\
       s2_nonce s = n3 /\ s2_srv s = sv3 /\ s2_hash1 s = fixed_bytes 16 h3 /\
       auth_key_hash H (s2_key s) = Ok kh
   end.
@@ -164,7 +162,7 @@ Qed.
 Lemma stage1_go pk dr e eff s : stage1 pk dr e = (eff, Go s) ->
   exists f1 r1 pqb fps fp p q message encrypted,
     eff = [SendPlain f1] /\ enc_req_pq (of_be (d_nonce dr)) = Ok f1 /\
-    e [f1] = Some r1 /\ dec_reply r1 = DObj (RResPQ (of_be (d_nonce dr)) (s1_srv s) pqb fps) /\
+    e [f1] = Some (Reply r1) /\ dec_reply r1 = DObj (RResPQ (of_be (d_nonce dr)) (s1_srv s) pqb fps) /\
     fingerprint64 H pk = Ok fp /\ In fp fps /\
     (of_be pqb <=? 1) = false /\ (64 <? N.size (of_be pqb)) = false /\ is_prime (of_be pqb) = false /\
     split (of_be pqb) = Some (p, q) /\
@@ -228,7 +226,7 @@ Qed.
 
 Lemma stage2_go dr e s eff t : stage2 dr e s = (eff, Go t) ->
   exists r2 enc_answer answer dhi aux s8 v8 inner enc2,
-    eff = [SendPlain (s1_f2 s)] /\ e (s1_hist s ++ [s1_f2 s]) = Some r2 /\
+    eff = [SendPlain (s1_f2 s)] /\ e (s1_hist s ++ [s1_f2 s]) = Some (Reply r2) /\
     dec_reply r2 = DObj (RDHOk (s1_nonce s) (s1_srv s) enc_answer) /\
     try_decrypt_temp H D enc_answer (s1_new s) (s1_srv s) = Ok answer /\
     dec_inner answer = Some dhi /\ i_nonce dhi = s1_nonce s /\ i_srv dhi = s1_srv s /\
@@ -332,7 +330,7 @@ Theorem success_implies_consistent pk dr e eff key hash salt :
   let new_nonce := of_be (d_new_nonce dr) in
   exists f1 f2 f3 r1 r2 r3 srv pqb fps enc_answer h3,
     eff = [SendPlain f1; SendPlain f2; SendPlain f3; Save key hash salt] /\
-    e [f1] = Some r1 /\ e [f1; f2] = Some r2 /\ e [f1; f2; f3] = Some r3 /\
+    e [f1] = Some (Reply r1) /\ e [f1; f2] = Some (Reply r2) /\ e [f1; f2; f3] = Some (Reply r3) /\
     dec_reply r1 = DObj (RResPQ nonce srv pqb fps) /\
     dec_reply r2 = DObj (RDHOk nonce srv enc_answer) /\
     dec_reply r3 = DObj (RGenOk nonce srv h3) /\
